@@ -389,6 +389,59 @@ def actions_reach(ai: int, ns: int, svc_state: int, app_state: int, nic_en: bool
             check(before == after, f"action {name} was refused but changed the state")
 
 
+RT_APPS = ["dos-bot", "ransomware-script", "c2-beacon", "c2-server", "nmap"]
+
+
+def rt_routes(ai: int, pi: int, ns: int):
+    """Routes added and removed at run time: an application is installed through the install request and uninstalled
+    through the uninstall request; afterwards the node's request tree is exactly what it was before, and every path that
+    existed only while the application was installed addresses a component that no longer exists: it is answered
+    'unreachable' (never success) and changes nothing."""
+    assume(all_of(rng(ai, 0, len(RT_APPS) - 1), rng(ns, 0, 1)))
+    app = pick(RT_APPS, ai)
+    with concrete():
+        game = _game("switched")
+        sim = game.simulation
+        node = sim.network.get_node_by_hostname("client_1")
+        base = ["network", "node", "client_1"]
+
+        def paths():
+            return sorted(tuple(p) for p in sim._request_manager.get_request_types_recursively() if len(p) >= 3 and p[2] == "client_1")
+
+        if app == "nmap":  # pre-installed: remove it first so that the install request really installs
+            sim.apply_request(base + ["software_manager", "application", "uninstall", "nmap"])
+        p0 = paths()
+        r = sim.apply_request(base + ["software_manager", "application", "install", app])
+        if r.status != "success":
+            fail(f"installing {app} through the request API answered {r.status}")
+        p1 = paths()
+        added = [p for p in p1 if p not in p0]
+        check(len(added) > 0, f"installing {app} added no route")
+        check(all(app in p for p in added), lambda: f"installing {app} added routes that do not name it: {[p for p in added if app not in p][:3]}")
+        r = sim.apply_request(base + ["software_manager", "application", "uninstall", app])
+        if r.status != "success":
+            fail(f"uninstalling {app} through the request API answered {r.status}")
+        p2 = paths()
+    check(p2 == p0, lambda: f"after installing and uninstalling {app} the request tree differs from before: left over {[p for p in p2 if p not in p0][:3]}, lost {[p for p in p0 if p not in p2][:3]}")
+    assume(rng(pi, 0, len(added) - 1))
+    path = pick(added, pi)
+    st = pick(["ON", "OFF"], ns)
+    with concrete():
+        _set_node_state(node, st)
+        before = snap(sim)
+    try:
+        resp = sim.apply_request(list(path))
+    except Exception as e:
+        fail(f"apply_request({list(path)}) raised {type(e).__name__}: {e}")
+    cover("stale_path")
+    check(resp is not None and resp.status in STATUSES, "undocumented status")
+    check(resp.status != "success", lambda: f"request {list(path)} addresses the uninstalled application {app} but answered success")
+    check(resp.status in ("unreachable", "failure"), lambda: f"request {list(path)} on the uninstalled application {app} answered {resp.status}")
+    with concrete():
+        after = snap(sim)
+    check(before == after, lambda: f"request {list(path)} on the uninstalled application {app} changed the simulation state")
+
+
 TERM_REQS = ["send_remote_command", "node_session_remote_login", "send_local_command"]  # (logging off is not gated by the service state: the disconnect is delivered either way)
 
 
@@ -474,6 +527,13 @@ HARNESSES = {
             "quick": "all argument-free/templated leaf paths of client_1; node ON/OFF; unmodified, misspelt at depth 3/4, truncated to 3..7 elements; all service and application states",
             "thorough": "both topologies, all 4 power states, every mutation position and truncation length",
         },
+    },
+    "rt_routes": {
+        "fn": rt_routes,
+        "quick": [{"fixed": {}, "timeout": 280}],
+        "thorough": [{"fixed": {}, "timeout": 600}],
+        "cover": ["stale_path"],
+        "bounds": "5 application types installed and uninstalled through the request API at run time; every path that existed only in between; node ON / OFF",
     },
     "svc_gate": {
         "fn": svc_gate,
